@@ -159,6 +159,12 @@ def run(tier: str, seed: int) -> int:
                  "ForcedStepper cases per public class")
     run_.assumptions = ["numpy expm1 for the growth factor", "tolerance 1e-9 relative to the laminar amplitude"]
     shutil.rmtree(work, ignore_errors=True)
+    # the composed machine (spec/Session.tla): ForcedStepper around the exact advection step inside multi-step API sessions, both directions
+    from .. import session, sessiontrace
+    import jax.numpy as _jnp
+    import exponax as _ex
+    session.run_for(run_, tier, seed, _ex, _jnp, ['forced'], PID)
+    sessiontrace.run_for(run_, tier, seed, _ex, _jnp, ['forced'], PID)
     return run_.finish()
 
 
